@@ -313,6 +313,15 @@ class Sym:
             a = self.operand(env, s["a"])
             if s["op"] == "PtrMetadata":
                 return ("len", a)
+            if s["op"] == "Not" and a[0] == "const" and a[1] in (0, 1, True, False):
+                # `!` of a known constant read from a *bool-typed* local (e.g. the result of `matches!`): fold it here, where the
+                # operand's MIR type is still known (constants carry no type afterwards, so the evaluator could not pick a width)
+                try:
+                    pl = s["a"].get("copy") or s["a"].get("move")
+                    if pl is not None and "p" not in pl and (self.F.ty(self.b.mir["locals"][pl["l"]]["ty"]) or {}).get("s") == "bool":
+                        return ("const", 0 if a[1] else 1)
+                except Exception:
+                    pass
             return ("un", s["op"], a)
         if rv == "cast":
             return ("cast", s["kind"], self.F.tys(s["ty"]), self.operand(env, s["op"]))
